@@ -581,6 +581,18 @@ func rulesC16(c *Ctx) {
 		gs2, st2 := c.Fn(pM, "SchemaCache", "getBySchema"), c.Fn(pM, "SchemaCache", "setBySchema")
 		c.Check(mapOf(gt, "Load") == byType && mapOf(st, "Store") == byType, "SchemaCache:by-type-map", gt, nil, "getByType loads from and setByType stores into the byType map")
 		c.Check(mapOf(gs2, "Load") == bySchema && mapOf(st2, "Store") == bySchema, "SchemaCache:by-schema-map", gs2, nil, "getBySchema loads from and setBySchema stores into the bySchema map")
+		// the key is the identity the lookup is about — the reflect.Type / the *Schema parameter itself, not a name or
+		// string derived from it (two distinct types can share a package path and a name: function-local types)
+		for _, f := range []*Func{gt, st, gs2, st2} {
+			ps := f.NonRecvParams()
+			okKey := false
+			for _, call := range f.AllCalls(f.Body, false) {
+				if fn := f.Callee(call); fn != nil && (fn.Name() == "Load" || fn.Name() == "Store") && fn.Pkg() != nil && fn.Pkg().Path() == "sync" && len(call.Args) >= 1 && len(ps) >= 1 {
+					okKey = f.ObjOf(call.Args[0]) == types.Object(ps[0])
+				}
+			}
+			c.Check(okKey, "SchemaCache:keyed-by-identity:"+f.Name(), f, nil, "the sync.Map key is the function's first parameter itself")
+		}
 		// setByType: cachedSchema{schema: <param 1>, resolved: <param 2>}; getByType returns cs.schema, cs.resolved in that order
 		okW := false
 		ast.Inspect(st.Body, func(n ast.Node) bool {
